@@ -112,25 +112,34 @@ LIST_SYN = {'BO': '[', 'BC': ']', 'COMMA': ',', 'W': 'w'}
 def run_list_template_case(ctx, mon, opts):
     """a ListProds whose delimiter is a NON-TERMINAL: left recursive (through the generated tail
     symbol) iff both the delimiter and the item can be empty"""
-    item_nullable, delim_nullable, afd, optional = opts
+    item_nullable, delim_nullable, afd, optional = opts[:4]
+    # the open bracket may be a non-terminal as well (possibly one that can be empty), and an item may
+    # itself start with a list
+    open_nt, open_nullable, item_starts_with_list = (tuple(opts[4:]) + (False, False, False))[:3]
+    open_sym = 'OPEN' if open_nt else '['
 
     def user_productions():
         # a template object belongs to one parser: build new ones for every constructor call
-        return {
+        prods = {
             'E': [('LIST',)],
-            'LIST': llparser.ListProds('[', 'ITEM', 'DELIM', ']', allow_final_delimiter=afd,
+            'LIST': llparser.ListProds(open_sym, 'ITEM', 'DELIM', ']', allow_final_delimiter=afd,
                                        optional=optional or None),
-            'ITEM': [('w',)] + ([None] if item_nullable else []),
+            'ITEM': ([('LIST', 'w')] if item_starts_with_list else []) + [('w',)] + ([None] if item_nullable else []),
             'DELIM': [(',',)] + ([None] if delim_nullable else []),
         }
+        if open_nt:
+            prods['OPEN'] = [('[',)] + ([None] if open_nullable else [])
+        return prods
     # the productions the template stands for (documented in its doc string)
     expanded = {
         'E': [('LIST',)],
-        'LIST': [('[', ']'), ('[', 'ITEM', 'TAIL', ']')] + ([()] if optional else []),
+        'LIST': [(open_sym, ']'), (open_sym, 'ITEM', 'TAIL', ']')] + ([()] if optional else []),
         'TAIL': [('DELIM', 'ITEM', 'TAIL')] + ([('DELIM',)] if afd else []) + [()],
-        'ITEM': [('w',)] + ([()] if item_nullable else []),
+        'ITEM': ([('LIST', 'w')] if item_starts_with_list else []) + [('w',)] + ([()] if item_nullable else []),
         'DELIM': [(',',)] + ([()] if delim_nullable else []),
     }
+    if open_nt:
+        expanded['OPEN'] = [('[',)] + ([()] if open_nullable else [])
     cycle = gram.left_recursion_cycle(expanded)
     case = {"kind": "list-template", "opts": list(opts)}
     for smart in (True, False):
@@ -158,7 +167,7 @@ def run_list_template_case(ctx, mon, opts):
             ctx.violation("left-recursive-grammar-accepted", {"template": "ListProds", "opts": list(opts),
                                                               "cycle": cycle}, case)
         ctx.count("accepted_grammars")
-        for text in ("[]", "[w]", "[w, w]", "[w w]", "[,]", "[w,]", "[", "w", "[w,,w]", ""):
+        for text in ("[]", "[w]", "[w, w]", "[w w]", "[,]", "[w,]", "[", "w", "[w,,w]", "", "w ]", "[[w] w, w]", "[w] w ]"):
             ctx.evaluated()
             mon.reset()
             mon.stack_bound = (len(text) + 3) * (len(parser.prods_map) + 2)
@@ -380,7 +389,9 @@ def run_shard(ctx):
     orders = set()
     try:
         if ctx.shard == 0:
-            for opts in itertools.product((False, True), repeat=4):
+            for opts in itertools.product((False, True), repeat=7):
+                if opts[5] and not opts[4]:
+                    continue    # (a terminal bracket cannot be empty)
                 run_list_template_case(ctx, mon, opts)
             for opts in itertools.product((False, True), repeat=1):
                 run_template_case(ctx, mon, "sequence", opts)
